@@ -102,7 +102,8 @@ PROPS["C12"] = dict(
     level="other",
     level_text="Structural solver check that StarkDomains::new computes the defining formula for every (t,c) (parsed source, uninterpreted pow/div), an integer SMT query for the exponent relation, plus a finite concrete table (orders of 3^((p-1)/2^k), k=0..192) that has no symbolic variable and is reported as a table, not as a solver result.",
     technique="source-to-SMT (z3) for the formula structure and exponent relation + exhaustive concrete big-integer table for the 193 orders",
-    obligations=[e2("C12")],
+    obligations=[e2("C12"),
+                 e1("C12.domains.kani", "c12_domains", "log trace size t and blow-up exponent c any with t + c <= 192", "StarkDomains::new: sizes are the powers of two, both generators are 3^((p-1)/size) (compiled real code; pow uninterpreted, exponent exact)", timeout=900, mem=8)],
     assumptions=E2_ASSUMPTIONS,
     outside=[],
 )
